@@ -448,6 +448,7 @@ func TestC08Random(t *testing.T) {
 			}
 		}
 		a, b, c := part("start"), part("stop"), part("step")
+		// (padding is applied by the case: "pad" = number of leading zeros on every present part)
 		carrier := rapid.SampledFrom([]string{"root", "field", "after-projection", "rhs", "typed-float", "typed-string"}).Draw(t, "carrier")
 		run(t, Case{Property: "C08", Kind: "slice", Expr: sliceExpr(a, b, c), Extra: map[string]interface{}{"len": float64(n), "a": a, "b": b, "c": c, "carrier": carrier}})
 	})
@@ -833,6 +834,8 @@ var errSeeds = []struct{ class, expr string }{
 	{"zero-step", "`[1,2]`[::0]"},
 	{"zero-step-empty", "`[]`[1:2:0]"},
 	{"zero-step-neg", "`[1]`[::-0]"},
+	{"zero-step-padded", "`[1,2]`[::0000000000000000000]"},
+	{"zero-step-padded-neg", "`[1,2]`[1::-00000000000000000000]"},
 	{"inconsistent-key", "sort_by(`[1,\"a\"]`, &@)"},
 	{"bad-key", "max_by(`[[1]]`, &@)"},
 	{"variadic-type", "merge(`{}`, `1`)"},
